@@ -187,7 +187,14 @@ func doMatchIn(expression *grammar.MatchExpression, value reflect.Value) (bool, 
 
 func doMatchIsEmpty(matcher *grammar.MatchExpression, value reflect.Value) (bool, error) {
 	// NOTE: see preconditions in evaluategrammar.MatchExpressionRecurse
-	return value.Len() == 0, nil
+	switch kind := value.Kind(); kind {
+	case reflect.Array, reflect.Chan, reflect.Map, reflect.Slice, reflect.String:
+		return value.Len() == 0, nil
+	default:
+		// reflect.Value.Len panics for every other kind (including the zero Value
+		// of a nil pointer or nil interface)
+		return false, fmt.Errorf("Cannot perform is empty operations on type %s for selector: %q", kind, matcher.Selector)
+	}
 }
 
 func getMatchExprValue(expression *grammar.MatchExpression, rvalue reflect.Kind) (interface{}, error) {
